@@ -39,6 +39,7 @@ def gen_tx_case(rng):
     seqs = {}
     now = 100
     sent_hi = tsn0 - 1       # highest TSN handed to _send so far
+    pr_tsns = []             # first TSNs of partially reliable messages
     n = rng.randrange(4, 45)
     for _ in range(n):
         k = rng.random()
@@ -55,6 +56,8 @@ def gen_tx_case(rng):
             if ordered:
                 seqs[sid] = (seq + 1) & 0xFFFF
             ins.append([0, fr, [sid, size, ordered, maxrt, expiry]])
+            if maxrt is not None or expiry is not None:
+                pr_tsns.append(tsn)
             tsn = (tsn + len(fr)) & 0xFFFFFFFF
             sent_hi = (tsn - 1) & 0xFFFFFFFF
         elif k < 0.78:
@@ -74,7 +77,20 @@ def gen_tx_case(rng):
                 if rng.random() < 0.05:
                     gaps.insert(0, [5, 2])
             ins.append([1, cum, gaps, now])
-        elif k < 0.9:
+        elif k < 0.86 and tsn != tsn0:
+            # three reports of the same hole: the chunk just above the cumulative point is struck three times and is
+            # fast-retransmitted - or abandoned, when it belongs to a partially reliable message (that is where the
+            # flight size is adjusted for an abandoned chunk)
+            span = (tsn - tsn0) & 0xFFFFFFFF
+            cum = (tsn0 - 1 + rng.randrange(0, span)) & 0xFFFFFFFF
+            if pr_tsns and rng.random() < 0.6:
+                cum = (rng.choice(pr_tsns) - 1) & 0xFFFFFFFF
+            gaps = [[2, 2 + rng.randrange(0, 4)]]
+            for j in range(3):
+                ins.append([1, cum, gaps, now])
+                if rng.random() < 0.3:
+                    ins.append([3])
+        elif k < 0.93:
             ins.append([2, now])
         else:
             ins.append([3])
